@@ -56,7 +56,11 @@ def build(case):
         else:
             seq = [{"ok": "$echo", "delay": delays[i]}]
         by_key[json.dumps(i)] = seq
-    oracle = {"item": {"seq": [{"ok": "$echo"}], "by_key": by_key}, "item2": {"seq": [{"ok": "$echo", "delay": 1}]}, "after": {"seq": [{"ok": "$echo"}]}, "slow": {"seq": [{"ok": "$echo", "delay": 7}]}}
+    oracle = {"item": {"seq": [{"ok": "$echo"}], "by_key": by_key}, "item2": {"seq": [{"ok": "$echo", "delay": 1}]}, "after": {"seq": [{"ok": "$echo"}]}, "slow": {"seq": [{"ok": "$echo", "delay": 7}]},
+              "slow2": {"seq": [{"ok": "$echo", "delay": 9}]}}
+    if case.get("outer_sibling_fails"):
+        # the sibling of the (nested) fan-out is the first to fail: the fan-out is then a terminated Branch of the outer state, and whatever fails inside it later is no new failure
+        oracle["slow"] = {"seq": [{"err": "SibErr", "msg": "sibling of the nested fan-out", "delay": 0}]}
 
     def branch_states(i, prefix, selector):
         """states of branch i; selector = Parameters for the first Task (how it learns its index)"""
@@ -120,7 +124,8 @@ def build(case):
         outer = {"Type": "Parallel", "Next": "After", "Branches": [inner, {"StartAt": "Slow", "States": {"Slow": {"Type": "Task", "Resource": fn("slow"), "End": True}}}]}
         if case.get("outer_catch"):
             outer["Catch"] = [{"ErrorEquals": ["States.ALL"], "Next": "OuterCaught", "ResultPath": "$.outer"}]
-            states["OuterCaught"] = {"Type": "Pass", "End": True}
+            # slow_outer_catch: the outer Catch target is still running when the (already failed) inner fan-out's stragglers fail, time out or reply
+            states["OuterCaught"] = {"Type": "Task", "Resource": fn("slow2"), "End": True} if case.get("slow_outer_catch") else {"Type": "Pass", "End": True}
         states["O"] = outer
         start = "O"
     else:
@@ -130,15 +135,28 @@ def build(case):
 
 
 def reference_outcomes(mcase):
-    outs = []
-    for k in range(4):
-        it = ri.Interp(mcase["definition"], copy.deepcopy(mcase["oracle"]), t0=1_700_000_000.0, execution={"Name": "e1"}, sm_arn=S.SM_ARN,
-                       choose_failure=lambda cands, k=k: k)
+    """Reference outcomes over every choice of 'the failing branch that is acted upon first', made independently for every fan-out state of the machine
+    (nested fan-outs fail at several levels; the same choice is made in every attempt of a retried state)."""
+    import itertools
+    names = ["O", "F"] if mcase["c06"].get("outer") else ["F"]
+    outs, seen = [], set()
+    for digits in itertools.product(range(4), repeat=len(names)):
+        policy = dict(zip(names, digits))
+        holder = {}
+
+        def choose(cands, policy=policy, holder=holder):
+            return policy.get(getattr(holder["it"], "join_name", None), 0)
+        it = ri.Interp(mcase["definition"], copy.deepcopy(mcase["oracle"]), t0=1_700_000_000.0, execution={"Name": "e1"}, sm_arn=S.SM_ARN, choose_failure=choose)
+        holder["it"] = it
         it.any_failing_branch = True
         try:
-            outs.append(it.run(copy.deepcopy(mcase["input"])))
+            r = it.run(copy.deepcopy(mcase["input"]))
         except ri.Unspec:
             return None
+        key = repr((r.status, r.output, r.error))
+        if key not in seen:
+            seen.add(key)
+            outs.append(r)
         if not it.ambiguous_failure:
             break
     return outs
@@ -149,8 +167,18 @@ def probe(w, started):
     pub_step = {o["uid"]: o["step"] for o in log if o["kind"] == "publish"}
     reqs = [{"seq": o["seq"], "step": o["step"], "queue": o["queues"][0], "corr": o["correlation_id"], "payload": json.loads(o["body"]), "root": (o["ctx"][1] if o["ctx"] and o["ctx"][0] == "msg" else None)}
             for o in log if o["kind"] == "publish" and o.get("reply_to") and o["queues"] and str(o["owner"]).startswith("engine:")]
+    # the attempt of the fan-out a request belongs to = the ID on top of the Branch stack of the event whose handling issued it
+    attempt_of = {}
+    for o in log:
+        if o["kind"] == "publish" and o["queues"] and str(o["queues"][0]).startswith("asl_workflow_events"):
+            try:
+                br = json.loads(o["body"])["context"]["State"].get("Branch")
+                attempt_of[o["uid"]] = br[-1].get("ID") if br else None
+            except Exception:
+                pass
     for r in reqs:
         r["root_published_step"] = pub_step.get(r["root"])
+        r["attempt"] = attempt_of.get(r["root"])
     err_uids = {o["uid"] for o in log if o["kind"] == "publish" and o["queues"] and str(o["queues"][0]).startswith("asl_workflow_reply_to") and b"errorType" in o["body"]}
     replies = {}
     for o in log:
@@ -201,7 +229,9 @@ def extra(case, sched, starts, res):
                 if s_f is None:
                     continue
                 for q in reqs:
-                    if q["queue"] in ("item", "item2") and q["step"] > s_f and q.get("root_published_step") is not None and q["root_published_step"] <= s_f and q["seq"] > r["seq"]:
+                    # (same attempt: the error reply of a task of an earlier, already failed attempt is an orphan, not the failure of this attempt)
+                    if q["queue"] in ("item", "item2") and q["step"] > s_f and q.get("root_published_step") is not None and q["root_published_step"] <= s_f and q["seq"] > r["seq"] \
+                            and q.get("attempt") is not None and q.get("attempt") == r.get("attempt"):
                         fails.append(("sibling-request-after-failure", "branch %r failed (reply handled at step %d) but a sibling issued request %r at step %d from an event published at step %d" % (
                             idx, s_f, q["payload"], q["step"], q["root_published_step"])))
                         break
@@ -227,7 +257,10 @@ def cases():
             fails = [draw(st.sampled_from(kinds)) for _ in range(n)]
         c = {"kind": kind, "n": n, "fails": fails, "delays": [draw(st.sampled_from([0, 0, 0.5, 1, 3])) for _ in range(n)],
              "waits": [draw(st.sampled_from([0, 0, 1, 2])) for _ in range(n)] if kind == "parallel" else None, "two": draw(st.booleans()) if kind == "parallel" else False,
-             "outer": draw(st.integers(0, 3)) == 0, "outer_catch": draw(st.booleans())}
+             "outer": draw(st.integers(0, 2)) == 0, "outer_catch": draw(st.integers(0, 2)) > 0}
+        if c["outer"] and c["outer_catch"]:
+            c["slow_outer_catch"] = draw(st.integers(0, 2)) > 0
+            c["outer_sibling_fails"] = draw(st.booleans())
         if kind == "map":
             c["mc"] = draw(st.sampled_from([None, 0, 1, 2]))
         c["long_form"] = kind == "parallel" and draw(st.integers(0, 3)) == 0
@@ -300,6 +333,9 @@ def shard(k, seed, tier, examples=60):
 
 def tag(fails, c6):
     """Report flat fan-outs and fan-outs nested in an outer Parallel as separate classes."""
+    # 'the engine holds no per-execution state once every execution is terminal' is C03's clause (and has its recorded finding there, C03-F36: a MaxConcurrency block that was never
+    # launched keeps the join state until the back stop); C06 asserts what its own statement lists: history, notifications, outcome, the retried attempt, unacknowledged messages
+    fails = [(b, d) for b, d in fails if not b.startswith("drain:branch_metadata")]
     handled_failure = any(c6["fails"]) and (c6.get("retry") or c6.get("catch"))
     suffix = (":nested-handled-failure" if handled_failure else ":nested") if c6.get("outer") else ":flat"
     return [(b + suffix, d) for b, d in fails]
@@ -337,5 +373,5 @@ def main(tier, seed, replay=None):
     if tier == "thorough":
         run_shards(camp, __name__, "shard", 16, examples=1500)
     else:
-        run_shards(camp, __name__, "shard", 8, examples=70)
+        run_shards(camp, __name__, "shard", 8, examples=110)
     return camp.finish()
